@@ -129,6 +129,7 @@ var inProbe bool
 
 func init() {
 	depthRelaxed = func() bool { return !inProbe && pbt.Known(kRecursion) }
+	genLineRelaxed = func() bool { return !inProbe && pbt.Known(kGenLine) }
 }
 
 func c07Probe(id string, run func() error) {
@@ -289,7 +290,14 @@ func mutate(t *rapid.T, s string, big bool) (string, string) {
 	pos := func() int {
 		return max(rapid.IntRange(0, len(s)).Draw(t, "pos"), rapid.IntRange(0, len(s)).Draw(t, "pos2"))
 	}
-	switch k := rapid.IntRange(0, 19).Draw(t, "mk"); k {
+	switch k := rapid.IntRange(0, 20).Draw(t, "mk"); k {
+	case 20: // an escape that is cut short at the end of a token
+		tail := rapid.SampledFrom(escapeTails).Draw(t, "etail")
+		i := boundary(t, s)
+		if rapid.Bool().Draw(t, "inq") && i > 0 && s[i-1] == '"' {
+			i-- // inside the closing quote
+		}
+		return s[:i] + tail + s[i:], fmt.Sprintf("escape-end %q @%d", tail, i)
 	case 19: // a $GENERATE line whose template is made of hostile pieces (see gentpl_test.go)
 		var c tplCase
 		genTplPieces(t, &c)
@@ -353,8 +361,19 @@ func mutate(t *rapid.T, s string, big bool) (string, string) {
 		}
 		i := boundary(t, s)
 		var ins string
-		kind := rapid.IntRange(0, 4).Draw(t, "lk")
+		kind := rapid.IntRange(0, 7).Draw(t, "lk")
 		switch kind {
+		case 5: // raw high octets (not UTF-8)
+			ins = " " + strings.Repeat(rapid.SampledFrom([]string{"\x80", "\xa9", "\xc3", "\xff", "\x80\xbf"}).Draw(t, "hi"), n) + " "
+		case 6:
+			ins = " \"ab" + strings.Repeat("\xa9", n) + "\" "
+		case 7: // filler lines inside one pair of parentheses
+			lines := n / 4
+			if pbt.Known(kParenComments) {
+				pbt.Excluded(kParenComments)
+				lines = min(lines, maxKnownFillerLines)
+			}
+			ins = " ( ; cc\n" + strings.Repeat(rapid.SampledFrom([]string{"; c\n", " ; cc c\n", "\n", ";\n"}).Draw(t, "fl"), lines) + " ) "
 		case 0:
 			ins = " " + strings.Repeat("a", n) + " "
 		case 1:
@@ -717,6 +736,10 @@ func genFault(t *rapid.T) faultCase {
 	n := len(z.FileItems(c.File))
 	c.After = rapid.IntRange(-1, n-1).Draw(t, "after")
 	c.Bad = rapid.SampledFrom(badLines).Draw(t, "bad")
+	if _, late := badGenerated[c.Bad]; late && pbt.Known(kGenLine) {
+		pbt.Excluded(kGenLine)
+		c.Bad = "$GENERATE 1-2 a${0,0,q} 300 IN A 10.0.0.1"
+	}
 	if pbt.Known(kTTLWrap) && wrapsTTL(c.Bad) {
 		pbt.Excluded(kTTLWrap)
 		c.Bad = "bad.example. 99999999999 IN A 10.0.0.1"
@@ -804,6 +827,15 @@ func checkFault(c faultCase) error {
 	}
 	if out.Err == nil {
 		return pbt.Errf("no error reported, %d records returned\n%s", out.N, ctx())
+	}
+	if good, ok := badGenerated[c.Bad]; ok {
+		// a $GENERATE whose lines go wrong at a later step: the steps before it yield records
+		if out.N == want+good {
+			out.N = want
+			if len(out.First) > want {
+				out.First = out.First[:want]
+			}
+		}
 	}
 	if out.N != want {
 		return pbt.Errf("%d records returned before the error %v, want exactly the %d records of the lines before the bad line\n%s", out.N, out.Err, want, ctx())
@@ -1367,6 +1399,9 @@ func faultText(c typeFaultCase) (string, bool) {
 }
 
 func checkTypeFault(c typeFaultCase) error {
+	if err, ok := checkRound8TypeFault(c); ok {
+		return err
+	}
 	if c.Fault == "quote-glued" {
 		text, ok := gluedFaultText(c)
 		if !ok {
@@ -1476,6 +1511,7 @@ func subFaultText(c typeFaultCase) (string, bool) {
 
 func eachTypeFault(emit func(typeFaultCase)) {
 	eachGlued(emit)
+	eachRound8TypeFault(emit)
 	for _, sm := range zm.Samples {
 		for ti, tok := range sm.Tokens {
 			for vi := range subTokenVariants(tok) {
